@@ -252,7 +252,7 @@ func c19Run(t *rapid.T, st *Stats) {
 		"Sign":            func(t *rapid.T) { doSign(t, false) },
 		"ValidateAndSign": func(t *rapid.T) { doSign(t, true) },
 		"UnmarshalCOSE": func(t *rapid.T) {
-			kind := rapid.SampledFrom([]string{"valid", "valid", "other-profile", "tampered-signature", "payload-not-claims", "payload-bad-claim", "payload-bad-claim", "garbage", "truncated", "own-last-token"}).Draw(t, "token")
+			kind := rapid.SampledFrom([]string{"valid", "valid", "invalid-claims", "invalid-claims", "other-profile", "tampered-signature", "payload-not-claims", "payload-bad-claim", "payload-bad-claim", "garbage", "truncated", "own-last-token"}).Draw(t, "token")
 			ki := rapid.IntRange(0, len(keys)-1).Draw(t, "key")
 			k := keys[ki]
 			var tok []byte
@@ -270,6 +270,34 @@ func c19Run(t *rapid.T, st *Stats) {
 					tok = append([]byte{}, tok...)
 					tok[len(tok)-1] ^= 0x01
 					keyIdx = -1
+				}
+			case "invalid-claims":
+				// correctly signed, decodes, but the claims break the profile's
+				// rules (e.g. both the component list and the no-measurements
+				// flag): the Evidence then holds invalid claims, which Sign
+				// (unlike ValidateAndSign) is willing to sign
+				var m *MClaims
+				for try := 0; try < 4; try++ {
+					m = GenAny(t, drawProf(t))
+					if !m.Valid() {
+						break
+					}
+				}
+				if rapid.IntRange(0, 2).Draw(t, "both") == 0 {
+					m = GenValid(t, P1, false)
+					if len(m.Comps) == 0 {
+						m.Comps = drawValidComps(t, "sw")
+						m.CompsNil = false
+					}
+					m.NoMeas = u64p(rapid.SampledFrom([]uint64{1, 0, 2}).Draw(t, "flag"))
+				}
+				pl := m.WireBytes()
+				if _, derr := psatoken.DecodeClaimsFromCBOR(pl); derr != nil {
+					t.Skip("claims do not decode")
+				}
+				var err error
+				if tok, err = icose.SignedToken(k.Alg, k.Priv, pl); err != nil {
+					t.Fatalf("VERIF-INFRA: %v", err)
 				}
 			case "payload-not-claims":
 				pl := rapid.SampledFrom([][]byte{{0x01}, {0x80}, {0x61, 0x61}, {0xf6}, {0xa0, 0x00}}).Draw(t, "payload")
